@@ -144,6 +144,12 @@ deriving DecidableEq, Repr
 
 structure Prog where
   entries : List Entry
+  /-- `ast_is_supported_super_call` finds the `X` of `super(X, self)` BY NAME in the module of `classes[idx]`:
+      `((h, x), r)` says that with `classes[idx] = h` the name of class `x` leads to `r` (`none`: "unsupported super
+      parameters", the call contributes nothing; `some d`: a class `d` with the same `__name__` that the module of
+      `h` binds under it).  Pairs not listed resolve to `x` itself.  Computed by `linkWith` of Core/ResolverMod.lean
+      from the per-module global tables; `[]` for a program in one module. -/
+  superMap : List ((Nat × Nat) × Option Nat)
 deriving DecidableEq, Repr
 
 /-- what can be asked for / what a call reaches -/
@@ -212,11 +218,18 @@ def dropTo (x : Nat) : List Nat → List Nat
   | [] => []
   | d :: rest => if d = x then d :: rest else dropTo x rest
 
-/-- `classes[idx:]` after `ast_is_supported_super_call` -/
-def superCtx (frm : Option Nat) (ctx : List Nat) : List Nat :=
+/-- `classes[idx:]` after `ast_is_supported_super_call` (`[]`: not supported) -/
+def superCtx (P : Prog) (frm : Option Nat) (ctx : List Nat) : List Nat :=
   match frm with
   | none => ctx
-  | some x => dropTo x ctx
+  | some x =>
+    match ctx with
+    | [] => []
+    | h :: _ =>
+      match P.superMap.lookup (h, x) with
+      | none => dropTo x ctx
+      | some none => []
+      | some (some d) => dropTo d ctx
 
 /-- `get_mro_parameters` from the current index -/
 def superFrameAt (P : Prog) (root : Nat) : List Nat → Option Frame
@@ -229,7 +242,7 @@ def superFrameAt (P : Prog) (root : Nat) : List Nat → Option Frame
 /-- frame resolved by a `super(...).__init__(…)` call, `none` = nothing found (`[]`) -/
 def superFrame (P : Prog) (wh : Where) (frm : Option Nat) : Option Frame :=
   match wh with
-  | .init root _ ctx => superFrameAt P root (superCtx frm ctx)
+  | .init root _ ctx => superFrameAt P root (superCtx P frm ctx)
   | _ => none
 
 /-- `get_node_component` -/
@@ -579,6 +592,81 @@ def acceptsF : Nat → Prog → Frame → String → Bool
   | 0, _, _, _ => false
   | fuel + 1, P, fr, n => acceptsBody (acceptsF fuel P) P fr n
 
+
+/-! ### which definition binds a name at run time (`binder`) -/
+
+/-- a forwarding call executed while `n` is still in `kwargs`: the definition that receives it in the callee -/
+def forwardB (rec : Frame → String → Option Param) (P : Prog) (wh : Where) (n : String) (u : Use)
+    (k : Nat) (given : List String) : Option Param :=
+  if n ∈ given then none
+  else
+    match callee P wh u with
+    | none => none
+    | some (fr, c) => if n ∈ boundPositionally k c then none else rec fr n
+
+/-- the statements in execution order: the FIRST consumer of `n` — a `kwargs.pop(n, d)` (as a statement, or inside
+    the argument list of a call, which is evaluated before that call binds) or the callee of a forwarding call
+    executed while `n` is still a key of `kwargs`.  (`kwargs.get` consumes nothing.) -/
+def runUsesB (rec : Frame → String → Option Param) (P : Prog) (wh : Where) (n : String) : List Use → Option Param
+  | [] => none
+  | .pop m d :: us => if m = n then some (popParam n d) else runUsesB rec P wh n us
+  | .popIn m d :: us => if m = n then some (popParam n d) else runUsesB rec P wh n us
+  | .get _ _ :: us => runUsesB rec P wh n us
+  | .superCall frm k given :: us =>
+    if (nestedPops us).contains n then runUsesB rec P wh n us
+    else
+      match forwardB rec P wh n (.superCall frm k given) k given with
+      | some q => some q
+      | none => runUsesB rec P wh n us
+  | .call t k given :: us =>
+    if (nestedPops us).contains n then runUsesB rec P wh n us
+    else
+      match forwardB rec P wh n (.call t k given) k given with
+      | some q => some q
+      | none => runUsesB rec P wh n us
+
+/-- binding `n=` in a call of `c`: its own parameter of that name, else the first consumer in the branch that runs
+    (the first branch of the `if` chain in which the call succeeds) -/
+def runCallableB (recA : Frame → String → Bool) (rec : Frame → String → Option Param) (P : Prog) (wh : Where)
+    (c : Callable) (n : String) : Option Param :=
+  match c.params.find? (fun p => p.name = n) with
+  | some p => some p
+  | none =>
+    if !c.varkw then none
+    else
+      match branchIds c.uses with
+      | [] => runUsesB rec P wh n (execUses none c.uses)
+      | ids =>
+        match ids.find? (fun i => runUses recA P wh n (execUses (some i) c.uses) true) with
+        | some i => runUsesB rec P wh n (execUses (some i) c.uses)
+        | none => none
+
+def binderBody (recA : Frame → String → Bool) (rec : Frame → String → Option Param) (P : Prog) : Frame → String → Option Param
+  | .entry i, n =>
+    match P.entries[i]? with
+    | none => none
+    | some (.fn c) => runCallableB recA rec P .fn c n
+    | some (.cls k) =>
+      match dispatchInit P (i :: k.mro) with
+      | some (d, _, s) => rec (.init i d s) n
+      | none => none
+  | .init root owner ctx, n =>
+    match P.ownInit owner with
+    | some c => runCallableB recA rec P (.init root owner ctx) c n
+    | none => none
+  | .meth o j, n =>
+    match P.meth? o j with
+    | some c => runCallableB recA rec P (.meth o) c n
+    | none => none
+  | .cmeth o j, n =>
+    match P.cmeth? o j with
+    | some c => runCallableB recA rec P (.cmeth o) c n
+    | none => none
+
+def binderF : Nat → Prog → Frame → String → Option Param
+  | 0, _, _, _ => none
+  | fuel + 1, P, fr, n => binderBody (acceptsF fuel P) (binderF fuel P) P fr n
+
 /-! ### fuel -/
 
 def maxMro : List Entry → Nat
@@ -611,6 +699,11 @@ def resolve (P : Prog) (c : CId) : List Param :=
   | _ => []
 
 def accepts (P : Prog) (c : CId) (n : String) : Bool := acceptsF P.bound P c.frame n
+
+/-- the definition (a signature parameter, or a `kwargs.pop`) that binds `n=…` when `c` is called with it;
+    `none`: the call is rejected, or nothing consumes the name (`**kwargs` swallowed) -/
+def binder (P : Prog) (c : CId) (n : String) : Option Param :=
+  if accepts P c n then binderF P.bound P c.frame n else none
 
 /-! ### well-formed programs (the hypotheses of `C13_exact`) -/
 
@@ -805,7 +898,7 @@ def Prog.acyclic (P : Prog) : Bool := allIdx entryAcyclic 0 P.entries
 
 /-- decidable well-formedness: acyclic, every body straight-line in the documented shape
     (pops, then one forwarding call; no `get`; no popped name hard-coded), hard-coded positionals fit -/
-def WfProg (P : Prog) : Bool := allIdx (entryOK P) 0 P.entries
+def WfProg (P : Prog) : Bool := P.superMap.isEmpty && allIdx (entryOK P) 0 P.entries
 
 def CId.valid (P : Prog) : CId → Bool
   | .entry i => decide (i < P.entries.length)
